@@ -513,6 +513,27 @@ def run(chk):
             return False, ("the loop over directory entries in ActiveFileSet::read can return before the listing is complete (an entry that "
                            "is not this set's - e.g. a name that is not valid UTF-8 - makes the whole read fail): the set is then empty, so "
                            "retention deletes nothing and nothing is reused, whatever else shares the directory"), [], nx[0].loc
+        # ... and the listing that was built and sorted is what the set holds afterwards: on every Ok path `self.file_set` is assigned the
+        # vector the entries were pushed into (the same one the sort was applied to)
+        pu = [c for c in rd.calls(normal_only=True) if c.callee.get("name") == "push" and rd.in_cycle(c.bb)]
+        vec = mir.Body._op_local(pu[0].args[0]) if pu else None
+        base = None
+        if pu:
+            o = rd.origin(pu[0].args[0])
+            r = mir.o_root(o)
+            base = r
+        stores = [(bb, j, st) for bb, j, st in rd.statements(normal_only=True) if st["k"] == "assign" and st["place"].get("p") and
+                  [p.get("n") for p in st["place"]["p"] if isinstance(p, dict) and "n" in p][-1:] == ["file_set"] and bb in rd.reachable_from(so[0].bb)]
+        sort_recv = mir.o_root(rd.origin(so[0].args[0], through_calls=("deref_mut", "deref", "as_mut_slice")))
+        if not stores:
+            return False, ("ActiveFileSet::read never stores the sorted listing in self.file_set: the set stays empty, so retention deletes nothing and "
+                           "no file is ever reused"), [], so[0].loc
+        val = mir.o_root(rd.origin(stores[0][2]["rv"]["op"])) if stores[0][2]["rv"]["k"] == "use" else ("unknown",)
+        same = (val[0] == sort_recv[0] == "call" and val[1].bb == sort_recv[1].bb) or (val[0] == sort_recv[0] != "call" and val[:2] == sort_recv[:2])
+        if not same:
+            return False, "self.file_set is assigned %s, not the listing that was sorted (%s)" % (o_str(val), o_str(sort_recv)), [], so[0].loc
+        if not rd.must_pass({stores[0][0]}, start=so[0].bb):
+            return False, "a path from the sort to the return skips storing the listing", [], so[0].loc
         return True, "", [nx[0].loc, so[0].loc]
     chk.ob("C11.R3:listing-total", "no directory entry can make the listing fail: foreign entries are skipped", listing_total)
 
@@ -667,6 +688,37 @@ def run(chk):
     batcher.channel_impls(chk, P, "C11.channel")
     # the size-limit decision reads the batch's byte count: after a failed write the retried batch must report its full size again
     c10.rewind_rule(chk, P, "C11.R1b")
+
+    def size_accounting():
+        """The size limit is applied to `file_size_bytes`, so every byte handed to the file is counted: in ActiveFile::write_event each
+        write of a buffer is accompanied, on every path reaching it, by `file_size_bytes += <that buffer>.len()`; a reused file starts from
+        its length on disk and a new one from zero."""
+        b = P.body("emit_file::ActiveFile::write_event")
+        writes = [c for c in b.calls(normal_only=True) if c.callee.get("name") in ("write_all", "write")]
+        if len(writes) < 2:
+            raise mir.AnchorMissing("the separator and event writes of ActiveFile::write_event")
+        adds = []
+        for bb, j, st in b.statements(normal_only=True):
+            if st["k"] == "assign" and st["place"].get("p") and [p.get("n") for p in st["place"]["p"] if isinstance(p, dict) and "n" in p][-1:] == ["file_size_bytes"]:
+                o = b.origin(st["rv"]["op"]) if st["rv"]["k"] == "use" else ("unknown",)
+                r = o
+                while r[0] in ("field", "cast", "copy"):
+                    r = r[1]
+                if r[0] == "binop" and r[1] in ("Add", "AddWithOverflow", "AddUnchecked"):
+                    ln = r[3] if r[3][0] == "call" else r[2]
+                    if ln[0] == "call" and ln[1].callee.get("name") == "len" and ln[1].args:
+                        adds.append((bb, mir.o_root(b.origin(ln[1].args[0]))))
+                    elif ln[0] in ("PtrMetadata",) or "PtrMetadata" in mir.o_str(ln):
+                        adds.append((bb, mir.o_root(ln[1]) if len(ln) > 1 else ("unknown",)))
+        for w in writes:
+            buf = mir.o_root(b.origin(w.args[1]))
+            mine = [bb for bb, src in adds if src == buf or (src[0] == buf[0] == "param" and src[1] == buf[1])]
+            if not mine or not b.must_pass(mine, ends=[w.bb]):
+                return False, ("ActiveFile::write_event writes %s at %s without adding its length to file_size_bytes on every path to the write: the "
+                               "bytes are in the file but not in the count the size limit is applied to, so the file grows past max_file_size_bytes"
+                               % (mir.o_str(buf), w.loc)), [], w.loc
+        return True, "", [w.loc for w in writes]
+    chk.ob("C11.R1c:size-accounting", "every buffer written to the active file is added to file_size_bytes", size_accounting)
     c10.std_adapter_rule(chk, P, "C11.R12")
     common.builder_rules(chk, P, "C11", lambda b: b.key.startswith("emit_file::FileSetBuilder::"), 7)
     common.arg_agreement_rule(chk, P, "C11", [("emit_file", None)], 5)
